@@ -9,7 +9,7 @@ SPEC = {
     'trusted_base': [
         "model N2k/Model/Rx.lean transcribes SetN2kCANBufMsg, FindFreeCANMsgIndex (non-TP call, incl. the two fix: commits: "
         "slot of the same PGN+source first, then a free slot, then the oldest slot if older than 100 ms modulo 2^32), "
-        "CopyBufToCANMsg, CheckKnownMessage (default lists), IsFastPacketFirstFrame, tN2kCANMsg::FreeMessage and the "
+        "CopyBufToCANMsg, CheckKnownMessage (with the four application lists), the RTS/BAM branch of TestHandleTPMessage, IsFastPacketFirstFrame, tN2kCANMsg::FreeMessage and the "
         "deliver-then-free of ParseMessages by hand; CanIdToN2k is N2k.Send.canIdToN2k (C01: id_roundtrip); tied to the "
         "compiled code by the differential run (delivered messages and a dump of all slots incl. MsgTime)",
         "PGN classification tables are REGENERATED from src/NMEA2000.cpp on every run (tools/translators/pgn_tables.py)",
@@ -20,9 +20,13 @@ SPEC = {
     ],
     'assumptions': [
         "CAN driver contract: 8 byte buffer, DLC <= 8 (WFrame); bytes beyond the DLC are whatever the buffer held (harness: 0xAA)",
-        "no ISO-TP frames (PGN 60416/60160 are C10's): the model leaves the state unchanged for them and the generators never emit them, "
-        "hence no slot is a TP slot",
-        "application has not replaced the default PGN lists (SetSingleFrameMessages/SetFastPacketMessages/Extend...)",
+        "ISO-TP: only TP.CM RTS/BAM frames are modelled (rxTPOpen: they free/occupy slots as TP sessions with the tp flag; a TP slot is "
+        "never a fast-packet continuation target) and generated (stale sessions, no data packets); TP.DT and the other TP.CM control "
+        "bytes are C10's: the model leaves the state unchanged for them and the generators never emit them; the completeness theorems "
+        "assume no TP session is opened (isTPOpen), the safety theorems do not",
+        "application PGN lists (Set/ExtendSingleFrameMessages, Set/ExtendFastPacketMessages) are part of the model (Cfg.sf0/sf1/fp0/fp1, "
+        "classify transcribes the test order of CheckKnownMessage) and of the harness (ops sflist/fplist); the generators do not declare "
+        "one PGN in lists of both kinds (the documented API does not say which wins)",
         "node in N2km_ListenOnly, forwarding disabled: a delivered system message causes no further action",
         "oracle slot budget is time-aware: an unfinished message whose first frame is more than 100 ms old (generator clock) does not "
         "count against the slot count - the oldest one must give way to a new message (checked at clock values 0, 2^31+-k, across 2^32; "
